@@ -503,7 +503,7 @@ func crashRun(sc *scenario, u *univ.Universe, order []blob.Ref, files map[int][]
 	}
 	c0 := w.plan.Calls()
 	if variant == "partial" {
-		w.plan.Faults = []*gate.Fault{{N: c0 + k, Kind: "partial"}}
+		w.plan.Faults = []*gate.Fault{{N: k, Kind: "partial"}} // Fault.N counts the calls since installation
 		w.plan.FreezeAt = c0 + k + 1
 	} else {
 		w.plan.FreezeAt = c0 + k
@@ -513,6 +513,9 @@ func crashRun(sc *scenario, u *univ.Universe, order []blob.Ref, files map[int][]
 	ev["res"] = "failed" // the process died: whatever the call returned was never seen
 	ev["size"] = 0
 	evs = append(evs, ev)
+	if variant == "partial" && !w.plan.Faults[0].Hit {
+		return fmt.Errorf("conformance: the half-done RemoveBlobs of %s (call %d) never happened", cls, k)
+	}
 	w.plan.Freeze()
 	w.sys.Close()
 	for mode, name := range []string{"none", "fast", "full"} {
